@@ -39,6 +39,15 @@
 //   0 < s < 0.005 (renormalising branch) -> 2 eps / s.  Parent directions closer than 1e-5 to
 //   the pole but not on it are not part of the alphabet (measure ~1e-10 of the sphere).
 //
+// Parent directions in rotate()'s renormalising branch (0 < s < 0.005) cover all sign patterns
+// of (x, y) for z > 0 and, for z < 0, both y < 0 and y >= 0.  For y < 0 the recorded defect below
+// is exactly a rotation into the frame of the mirrored parent (x, |y|, z): the photon is then
+// judged against the cone about the mirrored parent; only a photon on THAT cone is reported
+// under the recorded signature, a photon on neither cone gets
+//   cerenkov:off-both-cones[rotate:renormalising-branch,parent y<0: neither about the parent nor
+//   about its mirror image]
+// which is not recorded (live).
+//
 // Reported on the unchanged tree (reproductions: harness/c20_repro.cc):
 //   cerenkov:off-cone[rotate:renormalising-branch,parent y<0]  rotate() drops the sign of y
 //   cerenkov:not-finite[parent exactly along z]                rotate() 0/0 for (0,0,1-2^-53)
@@ -270,6 +279,12 @@ std::vector<Dir> make_dirs(bool thorough)
     d.push_back(unit("s1e-3y-", 0, -0.001L, -1));
     d.push_back(unit("s1e-3x-", -0.001L, 0, 1));
     d.push_back(unit("s4.9e-3-", 0.0029L, -0.00395L, 1));
+    // renormalising branch with z < 0 and y >= 0: every other z < 0 letter of this branch has
+    // y < 0 and its cone failures therefore carry the recorded signature (rotate() drops the
+    // sign of y there); these keep the cone oracle alive for the lower pole
+    d.push_back(unit("s1e-3+z-", 0.0006L, 0.0008L, -1));
+    d.push_back(unit("s1e-3-z-", -0.0006L, 0.0008L, -1));
+    d.push_back(unit("s1e-3x+z-", 0.001L, 0, -1));
     if (thorough)
     {
         d.push_back(unit("s1e-5+-", 0.6e-5L, -0.8e-5L, -1));
@@ -958,6 +973,18 @@ int main(int argc, char** argv)
                             if (srot > 0 && srot < 0.005L)
                                 cone_sig += pd[1] < 0 ? "[rotate:renormalising-branch,parent y<0]"
                                                       : "[rotate:renormalising-branch,parent y>=0]";
+                            // The recorded defect of that branch (sin(phi) rebuilt as
+                            // +sqrt(1 - cos(phi)^2)) is EXACTLY a rotation into the frame of the
+                            // mirrored parent (x, |y|, z): a photon that misses the cone about the
+                            // true parent but lies on the cone about the mirrored parent shows the
+                            // recorded defect and nothing else.  A photon that lies on neither
+                            // cone gets its own, unrecorded signature.
+                            bool const mirror_class = srot > 0 && srot < 0.005L && pd[1] < 0;
+                            LD const pdm[3] = {pd[0], std::fabs(pd[1]), pd[2]};
+                            std::string const unexplained_sig
+                                = "off-both-cones[rotate:renormalising-branch,parent y<0: neither "
+                                  "about the parent nor about its mirror image]";
+                            double worst_mirror = 0;
                             for (uint64_t s = 0; s < S.size(); ++s)
                             {
                                 auto script = S(s);
@@ -1008,10 +1035,22 @@ int main(int argc, char** argv)
                                         for (int i = 0; i < 3; ++i)
                                             got += LD(p.direction[i]) * pd[i];
                                         LD err = std::fabs(got - want);
+                                        LD errm = 0;
+                                        if (mirror_class && !(err <= TOL + cond))
+                                        {
+                                            LD gotm = 0;
+                                            for (int i = 0; i < 3; ++i)
+                                                gotm += LD(p.direction[i]) * pdm[i];
+                                            errm = std::fabs(gotm - want);
+                                            if (errm <= TOL + cond)
+                                                worst_mirror = std::max(worst_mirror, double(errm));
+                                        }
                                         if (err <= TOL + cond)
                                             worst_cone = std::max(worst_cone, double(err));
                                         else
-                                            chk.fail(cone_sig, [&] {
+                                            chk.fail(mirror_class && !(errm <= TOL + cond)
+                                                         ? unexplained_sig
+                                                         : cone_sig, [&] {
                                                 return fmt("%s: dir.parent=%.17Lg, 1/(n(E) beta_mean)=%.17Lg "
                                                            "(diff %.3Le, tol %.2e) E=%s n(E)=%.17Lg dir=(%s,%s,%s) "
                                                            "parent=(%.17Lg,%.17Lg,%.17Lg)",
@@ -1036,6 +1075,12 @@ int main(int argc, char** argv)
                             if (retried)
                                 R.tag("cer:some-rejection-loop-retried");
                             R.maxi("worst_cone_error_1e-18", uint64_t(worst_cone * 1e18));
+                            R.maxi("worst_mirrored_cone_error_1e-18(parent y<0)",
+                                   uint64_t(worst_mirror * 1e18));
+                            if (mirror_class)
+                                R.tag("cer:cone-judged-about-mirrored-parent(recorded rotate defect)");
+                            else if (srot > 0 && srot < 0.005L && pd[2] < 0)
+                                R.tag("cer:renormalising-branch,z<0,y>=0(cone oracle live)");
                             R.maxi("worst_cerenkov_ortho_error_1e-18", uint64_t(worst_ortho * 1e18));
                             if (partial || pre_below || post_below || srot < 0.02L)
                                 R.nontrivial(vf::hash_str(cid));
